@@ -376,7 +376,7 @@ class atom(boolean.AndRestriction):
             if self.op == "=*":
                 r.append(
                     packages.PackageRestriction(
-                        "fullver", values.StrGlobMatch(self.fullver)
+                        "fullver", restricts.VersionGlobMatch(self.fullver)
                     )
                 )
             else:
